@@ -340,6 +340,10 @@ struct Run {
 				bool justified = false;
 				for(long t = c.start; t <= c.end && !justified; ++t) {
 					if(dqnDefinitelyAliveAt(t)) continue;
+					// "non-empty" is what the library observes: emptyQueue() is false while any processing call that passed its
+					// emptiness pre-check is in flight, even if that call ends up taking nothing (another consumer was faster)
+					for(auto & pc : calls) if((pc.kind == O_PROCESS || pc.kind == O_PROCESS_ONE || pc.kind == O_PROCESS_IF_ODD || pc.kind == O_PROCESS_UNTIL_EVEN) && pc.start <= t && (pc.end < 0 || t <= pc.end)) justified = true;
+					if(justified) break;
 					for(auto & e : evs) {
 						if(e.enqStart < 0 || e.enqStart > t) continue;
 						long late = e.dispatched ? e.listenerEnd + 2 : (e.taken ? e.consumedSeq : (e.destroyedAt >= 0 ? e.destroyedAt : (long)1 << 40));
@@ -507,7 +511,9 @@ static void addFamily(const char * fam, std::vector<Config> (*gen)(int), int bou
 			for(size_t ci = 0; ci < mine.size(); ++ci) {
 				const Config & cfg = mine[ci];
 				if(ctx.samples.size() < ctx.maxSamples) ctx.samples.push_back(cfg.name());
-				DfsResult r = dfs(ctx, bound, [&]() {
+				// 4-thread configurations are explored one preemption shallower (their schedule space is ~40x larger)
+				int cfgBound = cfg.threads.size() >= 4 ? std::min(bound, 2) : bound;
+				DfsResult r = dfs(ctx, cfgBound, [&]() {
 					ctx.ex.choose(1000, 1000, K_OP);   // consumes the forced configuration index
 					Run run(ctx, cfg);
 					run.heter = heter;
